@@ -142,8 +142,10 @@ impl Exec {
     }
 
     fn quiescent() -> bool {
-        let pending = world::with(|w| w.srv_pending);
-        pending == 0 && io::net_idle()
+        // nothing scheduled at the server, nothing in transit, and the driver is not parked in a stalled write
+        // (it would still have queued scrubs and requests to process once the peer reads again)
+        let (pending, stalled) = world::with(|w| (w.srv_pending, w.pipe.w_waker.is_some()));
+        pending == 0 && !stalled && io::net_idle()
     }
 }
 
